@@ -510,13 +510,27 @@ def run(chk, repo):
         if isinstance(aug, ast.AugAssign) and isinstance(aug.value, ast.Call) and unparse(aug.value.func) == "next" \
                 and len(aug.value.args) == 1 and isinstance(aug.value.args[0], ast.Name):
             nm_ = aug.value.args[0].id
-            defs_ = [n_.value for n_ in ast.walk(rs) if isinstance(n_, ast.Assign) and unparse(n_.targets[0]) == nm_]
-            src_ok = len(defs_) == 1 and unparse(defs_[0]) in (
-                "iter(step) if isinstance(step, Iterable) else it.repeat(step)",
-                "it.repeat(step) if not isinstance(step, Iterable) else iter(step)")
-        chk.decide(src_ok, "C19.resample", WP("resample"), "single loop fed by %s" % (short(aug) if aug is not None else "?"),
-                   why="the position must advance by the next item of a step stream, or by the constant step every time",
-                   node=whiles[0])
+            # what the step source is bound to for each kind of step (guards evaluated, conditional expressions resolved)
+            from ..dtable import Facts, walk as _walk
+            trys = [n for n in rb if isinstance(n, ast.Try)]
+            blk = trys[0].body if trys else rb
+            src_ok = True
+            try:
+                for it_ in (True, False):
+                    w2 = _walk(blk, Facts(kinds={"step": {"Stream", "Iterable"} if it_ else {"float"}}, types={"Iterable"}),
+                               "resample step source", rebind=lambda n, v, F_: None)
+                    vals_ = [st_.value for st_ in w2.ran if isinstance(st_, ast.Assign) and len(st_.targets) == 1
+                             and unparse(st_.targets[0]) == nm_]
+                    got_ = unparse(vals_[-1]) if vals_ else None
+                    want_ = ("iter(step)",) if it_ else ("it.repeat(step)", "repeat(step)", "itertools.repeat(step)")
+                    src_ok = src_ok and len(vals_) == 1 and got_ in want_ and w2.end != "raise"
+            except AnalysisError as ex:
+                chk.defer(str(ex))
+                src_ok = None
+        if src_ok is not None:
+            chk.decide(src_ok, "C19.resample", WP("resample"), "single loop fed by %s" % (short(aug) if aug is not None else "?"),
+                       why="the position must advance by the next item of a step stream, or by the constant step every time",
+                       node=whiles[0])
     canon_w = []
     for w in whiles:
         txt = [unparse(s) for s in w.body]
